@@ -37,6 +37,11 @@ func mergeBuilderInto(fromBuilder ast.Builder, intoBuilder ast.Builder, underPat
 		renameOptions = map[string]string{}
 	}
 
+	// a factory calls the constructor without argument (see AddFactory, PromoteOptionsToConstructor)
+	if len(fromBuilder.Factories) != 0 && len(intoBuilder.Constructor.Args) != 0 {
+		return ast.Builder{}, fmt.Errorf("the factories of %s.%s can not be merged into %s.%s: its constructor accepts parameters", fromBuilder.Package, fromBuilder.Name, intoBuilder.Package, intoBuilder.Name)
+	}
+
 	// copy factories: they call the options by name, and have to call the copies
 	for _, factory := range fromBuilder.Factories {
 		newFactory := factory.DeepCopy()
